@@ -368,6 +368,15 @@ func c07R2(c *Ctx) {
 			}
 			reason, ok := c07AssertTable[tk]
 			if !ok {
+				// a CHECK line is recomputed at the site, so it also covers the same assertion moved into another function
+				suffix := "|" + shortType(ta.AssertedType) + "|" + origin
+				for k, v := range c07AssertTable {
+					if strings.HasSuffix(k, suffix) && strings.HasPrefix(v, "CHECK:") {
+						reason, ok = v, true
+					}
+				}
+			}
+			if !ok {
 				c.bad(rule, key, c.instrPos(ta), fmt.Sprintf("unchecked assertion .(%s) on %s in the run path is not justified by a dominating validation: a value of another type panics the process", shortType(ta.AssertedType), origin))
 				return
 			}
@@ -725,7 +734,7 @@ func c07R3(c *Ctx) {
 		isCancel := func(in ssa.Instruction) bool {
 			cc := callCommon(in)
 			_, isCall := in.(*ssa.Call)
-			return cc != nil && isCall && loadedField(cc.Value) == cancelF
+			return cc != nil && isCall && (loadedField(cc.Value) == cancelF || c.cancelsRun(in))
 		}
 		// no panic reachable before cancel
 		pPanic := c.findPathFrom(errBlock, 0, isCancel, func(in ssa.Instruction) bool {
@@ -1046,7 +1055,7 @@ func (c *Ctx) checkForceCloseCannotFail() (bool, string) {
 					return false
 				}
 				f := loadedField(call.Call.Args[0])
-				return f != nil && f.Name() == "closed"
+				return f != nil && fieldName(f) == "closed"
 			})
 			if guarded == nil {
 				okAll = false
